@@ -279,12 +279,40 @@ def r3_container_check(cx):
     gpi = b.calls(r"ManifestPack::get_pack_infos$")
     cx.ob("R3", "R3/Container.check/loops-over-pack-infos", len(loc) == 1 and len(gpi) == 1 and b.dominates(gpi[0][0], loc[0][0]) and _in_loop(b, loc[0][0]), f,
           "the loop ranges over manifest_pack.get_pack_infos() and locates every pack")
+    # every iteration locates its pack: from the Some arm of the iterator's next() the loop head cannot be
+    # reached again (nor Ok(true)) without passing through locate
+    nxt = [(i, t) for i, t in b.calls(r"Iterator>::next$") if _in_loop(b, i)]
+    every = False
+    if len(nxt) == 1 and len(loc) == 1:
+        ni, nt = nxt[0]
+        sw = nt["t"]
+        st = b.term(sw)
+        if st["k"] == "switch" and 1 in st["vals"]:
+            some_arm = st["targets"][st["vals"].index(1)]
+            r = b.reachable(some_arm, avoid={loc[0][0]} | err)
+            every = ni not in r and tb not in r
+    cx.ob("R3", "R3/Container.check/every-iteration-locates", every, f,
+          "on every path of a loop iteration the pack is located (no skip/continue in front of locator.locate)")
     oc = b.calls(r"jubako::open_as_container_pack$")
     ck = b.calls(r"ContainerPack::check$")
     ok = len(oc) == 1 and len(ck) == 1 and len(loc) == 1
     if ok:
         ok = any(o == ("call", loc[0][0]) for o in b.origins(oc[0][1]["args"][0])) and any(o == ("call", oc[0][0]) for o in b.origins(ck[0][1]["args"][0])) and _in_loop(b, ck[0][0])
     cx.ob("R3", "R3/Container.check/located-pack-checked", ok, f, "every Some(reader) from locate is opened with open_as_container_pack and its check() is called inside the loop")
+    # the Some(reader) arm cannot get back to the loop head without the check
+    if ok and len(nxt) == 1:
+        li = loc[0][0]
+        some_sw = [s for s in range(b.n) if b.term(s)["k"] == "switch" and not b.is_cleanup(s) and b.dominates(li, s) and
+                   any(d[0] == "stmt" and d[3]["rv"]["k"] == "discr" and op_base_local({"cp": d[3]["rv"]["pl"]}) in b.forward_locals({loc[0][1]["dest"]["l"]}) and "Option" in d[3]["rv"].get("of", "")
+                       for d in b.defs().get(op_local(b.term(s)["op"]) or -1, []))]
+        good = False
+        for s in some_sw:
+            t = b.term(s)
+            if 1 in t["vals"]:
+                arm = t["targets"][t["vals"].index(1)]
+                r = b.reachable(arm, avoid={ck[0][0]} | err)
+                good = nxt[0][0] not in r and tb not in r
+        cx.ob("R3", "R3/Container.check/some-arm-must-check", good, f, "from the Some(reader) arm neither the next iteration nor Ok(true) is reachable without calling check() on the pack")
     if len(ck) == 1:
         cx.ob("R3", "R3/Container.check/pack-result-decides", _result_guards(b, ck[0], tb, false_ret, err), f,
               "the located pack's check result feeds a branch whose false arm returns Ok(false)", ln=ck[0][1].get("ln"))
@@ -296,6 +324,17 @@ def r3_container_check(cx):
     gtrue = [x for x in goks if op_const_val(x[1]) is True]
     gfalse = [x for x in goks if op_const_val(x[1]) is False]
     cx.ob("R3", "R3/ContainerPack.check/returns", len(gtrue) == 1 and len(gfalse) >= 1, g, "Ok(true) once, Ok(false) on failure")
+    gnxt = [(i, t) for i, t in gb.calls(r"Iterator>::next$") if _in_loop(gb, i)]
+    if len(gnxt) == 1 and len(gtrue) == 1:
+        ni, nt = gnxt[0]
+        st = gb.term(nt["t"])
+        checks = {i for i, _ in gb.calls(r"as .*Pack>::check$")}
+        every = False
+        if st["k"] == "switch" and 1 in st["vals"]:
+            arm = st["targets"][st["vals"].index(1)]
+            r = gb.reachable(arm, avoid=checks | gerr | gb.panic_blocks())
+            every = ni not in r and gtrue[0][0] not in r
+        cx.ob("R3", "R3/ContainerPack.check/every-pack-checked", every, g, "every iteration over self.packs reaches one of the per-kind check() calls (or fails)")
     vals = gb.calls(r"HashMap::<.*>::values$")
     cx.ob("R3", "R3/ContainerPack.check/loops-over-all-packs", len(vals) == 1 and ("field", "packs") in gb.origins(vals[0][1]["args"][0]), g, "the loop ranges over self.packs.values()")
     for kind, pat in (("Manifest", r"ManifestPack as .*Pack>::check$"), ("Directory", r"DirectoryPack as .*Pack>::check$"), ("Content", r"ContentPack as .*Pack>::check$")):
@@ -446,7 +485,7 @@ def _defined_by_bin(b, l, op, const):
 RULES = [
     ("R1", r1_hash_after_writes, 18),
     ("R2", r2_check_impl, 18),
-    ("R3", r3_container_check, 14),
+    ("R3", r3_container_check, 17),
     ("R4", r4_mask, 5),
 ]
 EOF_MARKER = None
